@@ -10,5 +10,6 @@ func TestMain(m *testing.M) {
 	vh.Main(map[string]vh.CheckFunc{
 		"C17mcrew": C17mcrew,
 		"C16":      C16,
+		"C14mcrew": C14mcrew,
 	})
 }
